@@ -1,9 +1,114 @@
 import ALV.Common.Json
+import ALV.Model.C18
+import ALV.Spec.C18
 namespace ALV.Driver.C18
-open ALV ALV.J
+open ALV ALV.J ALV.C18
 
-/-- stub: the C18 slice is not built yet -/
-def handle (entry : String) (_j : Json) : Except String Json :=
-  throw s!"C18: unknown entry {entry}"
+def orderOf (j : Json) : Except String (Option Order) :=
+  match j with
+  | Json.null => pure none
+  | Json.str "<" => pure (some .little)
+  | Json.str ">" => pure (some .big)
+  | _ => throw s!"bad byte order {j.compress}"
+
+def fmtOf (s : String) : Except String Fmt :=
+  match s with
+  | "b" => pure .b | "h" => pure .h | "i" => pure .i | "f" => pure .f | "d" => pure .d
+  | _ => throw s!"bad format {s}"
+
+/-- Python number: JSON integer = int, `{"f": bits}` = the double with that bit pattern -/
+def pval (j : Json) : Except String PVal :=
+  match j with
+  | Json.int n => pure (.int n)
+  | Json.obj _ => do
+    let b ← getNat (← field j "f")
+    pure (.flt (Float.ofBits (UInt64.ofNat b)))
+  | _ => throw s!"bad value {j.compress}"
+
+def bytesJson (b : Bytes) : Json := arr (fun (x : UInt8) => Json.int x.toNat) b
+
+def getBytes (j : Json) : Except String Bytes := do
+  let l ← getList getNat j
+  pure (l.map UInt8.ofNat)
+
+def structErr : PackErr → String
+  | .range => "struct.error" | .notInt => "struct.error" | .floatRange => "OverflowError"
+def arrayErr : PackErr → String
+  | .range => "OverflowError" | .notInt => "TypeError" | .floatRange => "OverflowError"
+def absErr : PackErr → String
+  | .range => "range" | .notInt => "notInt" | .floatRange => "floatRange"
+
+def genJson {ε} (name : ε → String) (g : Gen Bytes ε) : Json :=
+  Json.mkObj [("out", arr bytesJson g.out), ("err", optJson (fun e => Json.str (name e)) g.err)]
+
+def wavErr : WavErr → String
+  | .structLen => "struct.error" | .ordLen => "TypeError" | .noUnpacker => "KeyError"
+
+def sampleJson : Sample Rat → Json
+  | .raw n => Json.int n
+  | .scaled x => ratToJson x
+
+def kindOf : List (Sample Rat) → String
+  | [] => "none"
+  | .raw _ :: _ => "int"
+  | .scaled _ :: _ => "float"
+
+def handle (entry : String) (j : Json) : Except String Json := do
+  match entry with
+  | "chunks" =>
+    let fmt ← fmtOf (← getStr (← field j "fmt"))
+    let native ← orderOf (← field j "native")
+    let native ← match native with | some o => pure o | none => throw "native order required"
+    let order := resolveOrder native (← orderOf (fieldD j "order" Json.null))
+    let size ← getNat (← field j "size")
+    if size = 0 then throw "size must be positive"
+    let pad ← pval (← field j "pad")
+    let xs ← getList pval (← field j "xs")
+    let s := chunksStruct order (leElem true fmt) size pad xs
+    let a := chunksArray native order (leElem false fmt) (.int 0) size pad xs
+    let sp := chunksSpec (encOrder order (leElem true fmt)) size pad xs
+    let spa := chunksSpec (encOrder order (leElem false fmt)) size pad xs
+    pure <| Json.mkObj [
+      ("struct", genJson structErr s), ("array", genJson arrayErr a),
+      ("spec", genJson absErr sp), ("spec_array", genJson absErr spa),
+      ("width", natToJson fmt.width), ("padlen", natToJson (padLen size xs.length))]
+  | "wav" =>
+    let bits ← getNat (← field j "bits")
+    let channels ← getNat (← field j "channels")
+    let rate ← getNat (← field j "rate")
+    let keep ← getBool (← field j "keep")
+    let data ← getBytes (← field j "data")
+    let f : WavFile := ⟨channels, bits / 8, rate, data⟩
+    let o : WavObs Rat := wavStream f keep
+    let base := [
+      ("model", Json.mkObj [("out", arr sampleJson o.gen.out),
+        ("err", optJson (fun e => Json.str (wavErr e)) o.gen.err),
+        ("kind", Json.str (kindOf o.gen.out)),
+        ("rate", natToJson o.rate), ("channels", natToJson o.channels), ("bits", natToJson o.bits)])]
+    let specPart ← match optField j "samples" with
+      | none => pure []
+      | some sj => do
+        let samples ← getList getInt sj
+        let sp : List (Sample Rat) := wavSpec bits keep samples
+        pure [("spec", Json.mkObj [("out", arr sampleJson sp), ("kind", Json.str (kindOf sp)),
+                ("valid", Json.bool (samples.all fun n => decide (stored bits n))),
+                ("enc", bytesJson (pcmData bits samples))])]
+    let w := bits / 8
+    let anyPart :=
+      if (channels = 1 ∨ channels = 2) ∧ w ≠ 0 ∧ data.length % (w * channels) = 0 then
+        let sp : List (Sample Rat) := wavSpec bits keep ((splitEvery w data).map (storedValue bits))
+        [("spec_any", Json.mkObj [("out", arr sampleJson sp), ("kind", Json.str (kindOf sp))])]
+      else []
+    let lazyPart ← match optField j "take" with
+      | none => pure []
+      | some tj => do
+        let k ← getNat tj
+        let sw := (8 * f.sampwidth) / 8
+        let r := wavTake channels sw (f.sampwidth * channels) k ⟨data, [], false⟩
+        let n := (sampleReader channels sw (blockReader (f.sampwidth * channels) data)).length
+        pure [("lazy", Json.mkObj [("taken", natToJson r.1.length), ("closed", Json.bool r.2.closed),
+                ("spec_taken", natToJson (min k n)), ("spec_closed", Json.bool (closedAfter n k))])]
+    pure <| Json.mkObj (base ++ specPart ++ anyPart ++ lazyPart)
+  | _ => throw s!"C18: unknown entry {entry}"
 
 end ALV.Driver.C18
